@@ -320,6 +320,7 @@ func runC11(c *Ctx) {
 	c.Exhaustive = true
 	c.Rule = fmt.Sprintf("fault enumeration: from every state reachable in <= 1 call (quick) / <= 2 calls (thorough) over the %d-call management alphabet:", len(mgmtAlphabet())) + " every management call, SavePolicy and LoadPolicy x failure of its k-th adapter call (k = 1, 2), LoadPolicy failing after k delivered lines for every k <= number of lines, reloads through the file and string adapters from a text whose (k+1)-th line the line reader itself rejects (empty type, short rule, unbalanced quote; implementation only), role-link rebuilding failing at the j-th link for j = 1..5 (also on a model whose role definitions are all conditional: the j-th grouping line of the reloaded text lacks its parameters); the calls of the RBAC API and its domain variants (20 calls) x failure of their k-th adapter call for every k they make (implementation only; the four calls composed of several management calls only for k = 1: finding D40); the same first-call faults with a watcher attached (SavePolicy, LoadPolicy, two management calls x both auto-save settings: error reported, nothing announced, memory unchanged); batches rejected half-way (a missing old rule, an already listed rule) from every prefix state, through the Enforcer and handed to Model.UpdatePolicies directly (the path of the Self* replay calls): whatever reports false or an error leaves rules, index, links and decisions as they were; observed: returned error, listed rules, HasLink over the universe, decisions over 16 requests, before vs after (on the implementation) and against the Lean model; non-trivial = a fault that was actually hit (the call reported an error); distinct = (prefix, call, fault)"
 	c11RbacFaults(c)
+	c11BasicAdapterFaults(c)
 	condRejectedReload(c)
 	c11RejectedTextReloads(c)
 	alpha := mgmtAlphabet()
